@@ -619,6 +619,76 @@ theorem ascii_prefix (e : PStr) (he : NameLike e) (lit : PStr) (hl : lit.all (fu
   · exact (he c hc).1
   · simp at hc; omega
 
+/-! ### the finder skips a prefix in which the word `charset` does not occur -/
+
+/-- no occurrence of the word `charset` (ASCII case-insensitively) begins inside `pre`, given that `charset=` follows -/
+def quietDecl : PStr → Bool
+  | [] => true
+  | c :: cs => (lowerIs (ofS "charset") (c :: cs ++ ofS "charset=")).isNone && quietDecl cs
+
+theorem lowerIs_append (a X : PStr) (h : 7 ≤ a.length) (hn : lowerIs (ofS "charset") a = none) :
+    lowerIs (ofS "charset") (a ++ X) = none := by
+  have hl : (ofS "charset").length = 7 := by decide
+  unfold lowerIs at hn ⊢
+  rw [hl] at hn ⊢
+  rw [List.take_append_of_le_length h]
+  split at hn
+  · cases hn
+  · rename_i hne; rw [if_neg hne]
+
+theorem findDeclared_quiet : ∀ (pre Y : PStr), quietDecl pre = true →
+    findDeclared (pre ++ (ofS "charset=" ++ Y)) = findDeclared (ofS "charset=" ++ Y) := by
+  intro pre
+  induction pre with
+  | nil => intro Y _; rfl
+  | cons c cs ih =>
+    intro Y h
+    simp only [quietDecl, Bool.and_eq_true, Option.isNone_iff_eq_none] at h
+    have hl : lowerIs (ofS "charset") (c :: cs ++ (ofS "charset=" ++ Y)) = none := by
+      have := lowerIs_append (c :: cs ++ ofS "charset=") Y (by simp [ofS]) h.1
+      simpa using this
+    simp only [List.cons_append] at hl ⊢
+    rw [findDeclared, declAt, hl]
+    exact ih Y h.2
+
+theorem findDeclared_key_quoted (e rest : PStr) (he : NameLike e) :
+    findDeclared (ofS "charset=" ++ (34 :: (e ++ 34 :: rest))) = some e := by
+  have e1 : ofS "charset=" ++ (34 :: (e ++ 34 :: rest)) = 99 :: 104 :: 97 :: 114 :: 115 :: 101 :: 116 :: 61 :: 34 :: (e ++ 34 :: rest) := by
+    simp [ofS]
+  rw [e1]
+  have step : ∀ X, findDeclared (99 :: 104 :: 97 :: 114 :: 115 :: 101 :: 116 :: 61 :: 34 :: X)
+      = match declValue X with | some v => some v | none => findDeclared (104 :: 97 :: 114 :: 115 :: 101 :: 116 :: 61 :: 34 :: X) := by
+    intro X; rfl
+  rw [step, declValue_name e _ he]
+
+theorem findDeclared_key_bare (c : Nat) (cs rest : PStr) (he : NameLike (c :: cs)) :
+    findDeclared (ofS "charset=" ++ (c :: cs ++ 34 :: rest)) = some (c :: cs) := by
+  have hcn := he c (by simp)
+  have e1 : ofS "charset=" ++ (c :: cs ++ 34 :: rest) = 99 :: 104 :: 97 :: 114 :: 115 :: 101 :: 116 :: 61 :: (c :: (cs ++ 34 :: rest)) := by
+    simp [ofS]
+  rw [e1]
+  have step : ∀ X, findDeclared (99 :: 104 :: 97 :: 114 :: 115 :: 101 :: 116 :: 61 :: X)
+      = match declAfterKey (61 :: X) with | some v => some v | none => findDeclared (104 :: 97 :: 114 :: 115 :: 101 :: 116 :: 61 :: X) := by
+    intro X; rfl
+  rw [step]
+  have hq : stripQuote (c :: (cs ++ 34 :: rest)) = c :: (cs ++ 34 :: rest) := by
+    have h34 : c ≠ 34 := by intro h; subst h; simp [isTerminator] at hcn
+    have h39 : c ≠ 39 := by intro h; subst h; simp [isTerminator] at hcn
+    unfold stripQuote
+    split
+    · rename_i heq; cases heq; exact absurd rfl h34
+    · rename_i heq; cases heq; exact absurd rfl h39
+    · rfl
+  have hk : declAfterKey (61 :: c :: (cs ++ 34 :: rest)) = some (c :: cs) := by
+    have hd1 : (61 :: c :: (cs ++ 34 :: rest)).dropWhile isAsciiSpace = 61 :: c :: (cs ++ 34 :: rest) := by rfl
+    have hd2 : (c :: (cs ++ 34 :: rest)).dropWhile isAsciiSpace = c :: (cs ++ 34 :: rest) := by
+      simp [List.dropWhile, hcn.2.2]
+    unfold declAfterKey
+    rw [hd1]
+    simp only [hd2, hq]
+    exact declValue_name (c :: cs) _ he
+  rw [hk]
+
 /-! ### the rewrite is literal: whatever the name is made of, it ends up verbatim in the result -/
 
 theorem subGo_contains (e : PStr) : ∀ (s : PStr) (bol : Bool), charsetReSearch bol s = true →
